@@ -540,6 +540,31 @@ def sdpaCheck (i : SdpaIn) : Option (String × Dim × Option Float) :=
     | _ => some (fmt, h, some scale)
   | _, _, _ => none
 
+/-- What `replace_sdpa_by_mha` (`sdpa_via_mha.py`) builds around `MultiHeadAttention` for `num_heads = h`:
+per operand the `Transpose` perm (none for a key already in BSHd layout) and the constant `Reshape` shape that bring
+`(B,H,S,d)` to `(B,S,H·d)`; the `Reshape` shape and `Transpose` perm that bring the result back to `(B,H,S,Dv)`;
+and the `scale` attribute, which is the SDPA node's own (absent stays absent: both operators then default to
+`1/sqrt(head size of the query)`, see `sdpa_via_mha_default_scale`). -/
+structure ViaMha where
+  qPerm : Option (List Int)
+  kPerm : Option (List Int)
+  vPerm : Option (List Int)
+  to3d : List Int
+  to4d : List Int
+  outPerm : List Int
+  numHeads : Nat
+  deriving DecidableEq, Repr
+
+def viaMha (fmt : String) (h : Nat) : ViaMha :=
+  { qPerm := some [0, 2, 1, 3], kPerm := if fmt == "BHSd" then some [0, 2, 1, 3] else none, vPerm := some [0, 2, 1, 3],
+    to3d := [0, 0, -1], to4d := [0, 0, (h : Int), -1], outPerm := [0, 2, 1, 3], numHeads := h }
+
+def showInts (sep : String) (l : List Int) : String := sep.intercalate (l.map toString)
+
+def ViaMha.show (v : ViaMha) : String :=
+  let one (p : Option (List Int)) := (match p with | some q => "T" ++ showInts "" q | none => "") ++ "R" ++ showInts "/" v.to3d
+  s!"via={one v.qPerm}|{one v.kPerm}|{one v.vPerm}|R{showInts "/" v.to4d}T{showInts "" v.outPerm}"
+
 def sdpa (i : SdpaIn) : String :=
   match sdpaCheck i with
   | none => "count=0/0"
@@ -551,7 +576,7 @@ def sdpa (i : SdpaIn) : String :=
     | .int n =>
       let sc2 := match scale with | some s => s!";scale={showF s}" | none => ""
       let m2 := if i.mask then ",_,_,@Expand" else ""
-      s!"count=1/1 {rec1} ; MultiHeadAttention@com.microsoft\{num_heads={n}{sc2}}(@Reshape,@Reshape,@Reshape{m2})->1"
+      s!"count=1/1 {rec1} ; {(viaMha fmt n).show} MultiHeadAttention@com.microsoft\{num_heads={n}{sc2}}(@Reshape,@Reshape,@Reshape{m2})->1"
     | _ => s!"count=1/0 {rec1} ;"
 
 /-! ## MultiHeadAttention (`mha.py`), on the graphs the harness builds (self-attention, no rotary) -/
